@@ -171,54 +171,72 @@ def syntax_errors(out, mc, pending):
         ob.status = "pass"
 
 
-BATTERY = [
-    ("syntax_error_reported", "local = 1\n", "syntax-error", True),
-    ("doc_error_reported", "---@class\nlocal x = 1\n", "doc-syntax-error", True),
-    ("two_errors_two_diags", "local = 1\nlocal = 2\n", "syntax-error", 2),
+TEXTS = [
+    ("syntax_error", "local = 1\n"),
+    ("doc_error", "---@class\nlocal x = 1\n"),
+    ("two_errors", "local = 1\nlocal = 2\n"),
+    ("same_message_twice", "local t = {}\nt.a = = 1\nt.b = = 2\n"),
+    ("astral_in_range", "local s = \"\U0001F600 oops\n"),
+    ("astral_before_error", "local e = '\U0001F600' local = 1\n"),
+    ("empty_range_doc_error", "---@param\nlocal function f() end\n---@field\n"),
+    ("error_at_end_of_file", "local x = ("),
+    ("crlf_file", "local a = 1\r\nlocal = 2\r\n"),
+    ("cjk_line", "local 名 = = 1\n"),
 ]
+
+
+def native_battery():
+    """every parse error of each text must appear as a diagnostic with the code of its kind at ITS location
+    (LSP range computed independently of LineIndex in vreplay); every reported range is ordered"""
+    runs, hit = [], None
+    for bid, text in TEXTS:
+        sc = {"kind": "diagnose", "target": "t.lua", "emmyrc": {"diagnostics": {}}, "files": [{"name": "t.lua", "text": text}]}
+        res = mflow.native_replay(sc)
+        if "error" in res:
+            runs.append({"id": bid, "error": res["error"]})
+            continue
+        problems = []
+        diags = res.get("diagnostics", [])
+        for d in diags:
+            if d["start"] > d["end"]:
+                problems.append("diagnostic with start after end: %s" % d)
+        for pe in res.get("parse_errors", []):
+            code = "syntax-error" if pe["kind"] == "SyntaxError" else "doc-syntax-error"
+            if not any(d["code"] == code and d["start"] == pe["start"] and d["end"] == pe["end"] for d in diags):
+                problems.append("parse error %s at %s-%s has no %s diagnostic at that range" % (pe["message"][:40], pe["start"], pe["end"], code))
+        runs.append({"id": bid, "parse_errors": len(res.get("parse_errors", [])), "violates": bool(problems), "problems": problems[:3]})
+        if problems and hit is None:
+            hit = (bid, sc, res, problems)
+    return runs, hit
 
 
 def replay(out, pending):
     if not pending:
         return
-    runs = []
-    hit = None
-    for bid, text, code, expect in BATTERY:
-        res = mflow.native_replay({"kind": "diagnose", "target": "t.lua", "emmyrc": {"diagnostics": {}}, "files": [{"name": "t.lua", "text": text}]})
-        if "error" in res:
-            runs.append({"id": bid, "error": res["error"]})
-            continue
-        ds = [d for d in res.get("diagnostics", []) if d["code"] == code]
-        bad = (len(ds) == 0) if expect is True else (len(ds) < expect)
-        # well-formedness of every reported range
-        for d in res.get("diagnostics", []):
-            if d["start"] > d["end"]:
-                bad = True
-        runs.append({"id": bid, "n": len(ds), "violates": bad})
-        if bad and hit is None:
-            hit = (bid, text, res)
+    runs, hit = native_battery()
     for ob, fails in pending:
         if hit is None:
             ob.status = "inconclusive"
-            ob.detail = "solver found a deviation (%s) but none of the %d native scenarios shows a violation" % ("; ".join(sorted(set(fails)))[:300], len(BATTERY))
+            ob.detail = "solver found a deviation (%s) but none of the %d native texts shows a violation" % ("; ".join(sorted(set(fails)))[:300], len(TEXTS))
+            ob.extra["battery"] = runs
             continue
-        rec = {"property": out.prop, "role": ob.role, "solver_findings": sorted(set(fails))[:6],
-               "scenario": {"kind": "diagnose", "target": "t.lua", "emmyrc": {"diagnostics": {}}, "files": [{"name": "t.lua", "text": hit[1]}]},
-               "native": hit[2], "violates": True, "battery": runs}
+        rec = {"property": out.prop, "role": ob.role, "solver_findings": sorted(set(fails))[:6], "scenario": hit[1],
+               "native": {"problems": hit[3], "diagnostics": hit[2].get("diagnostics"), "parse_errors": hit[2].get("parse_errors")}, "violates": True, "battery": runs}
         path = mflow.write_replay(out, ob.oid.replace("/", "_"), rec)
-        ob.counterexamples = [{"findings": sorted(set(fails))[:4], "native_scenario": hit[0], "replay": path}]
+        ob.counterexamples = [{"findings": sorted(set(fails))[:4], "native_scenario": hit[0], "problems": hit[3][:2], "replay": path}]
         kf = match_known(out.prop, ob.role, hit[0], {})
         if kf:
             ob.status = "known"
             out.known("%s [%s]" % (kf["what"], ob.oid))
         else:
             ob.status = "violation"
-            ob.detail = "%s — confirmed natively (%s)" % ("; ".join(sorted(set(fails)))[:300], hit[0])
+            ob.detail = "%s — confirmed natively (%s: %s)" % ("; ".join(sorted(set(fails)))[:300], hit[0], hit[3][0][:160])
             out.violation(path, "(%s: %s)" % (ob.oid, hit[0]))
 
 
 def run(out):
-    out.functions = ["LuaDocument::to_lsp_range / to_lsp_position / to_rowan_range", "DiagnosticContext::translate_range", "SyntaxErrorChecker::check"]
+    out.functions = ["LuaDocument::to_lsp_range / to_lsp_position / to_rowan_range", "DiagnosticContext::translate_range", "SyntaxErrorChecker::check",
+                     "DiagnosticContext::add_diagnostic + get_severity"]
     out.bounds = {"M": "all paths of translate_range; SyntaxErrorChecker::check with <= 2 parse errors (token walk cut)"}
     out.outside = ["message placeholder substitution (the i18n shim is identity)", "ranges computed by the individual checkers", "duplicate-freedom of the list",
                    "literal checks of the token walk in SyntaxErrorChecker (second loop)", "known code names / severity presence are covered by C20's gating obligation"]
@@ -230,6 +248,9 @@ def run(out):
     try:
         translate(out, mc, pending)
         syntax_errors(out, mc, pending)
+        # construction of the Diagnostic (range = translated range or 0:0, code name, severity): shared with C20
+        import c20
+        pending += c20.gating(out, mc)
     except (symex.Unsupported, RuntimeError, KeyError, ValueError, IndexError, AttributeError, TypeError) as e:
         import traceback
         out.fatal = "engine M could not encode the current source: %r\n%s" % (e, traceback.format_exc()[-1500:])
